@@ -17,6 +17,7 @@ import (
 	"github.com/gogo/protobuf/gogoproto"
 	gogo "github.com/gogo/protobuf/proto"
 	gogodesc "github.com/gogo/protobuf/protoc-gen-gogo/descriptor"
+	gogotypes "github.com/gogo/protobuf/types"
 	golangproto "github.com/golang/protobuf/proto" //nolint
 	"google.golang.org/protobuf/proto"
 	"google.golang.org/protobuf/reflect/protodesc"
@@ -167,6 +168,10 @@ var hosts = []host{
 		{"legacy_bin", ELegacyBin, 102, func(t *rapid.T) any { return []byte(str(t)) }},
 		{"legacy_bool", ELegacyBool, 103, func(t *rapid.T) any { return ptr(rapid.Bool().Draw(t, "b")) }},
 		{"legacy_unregistered", ELegacyUnreg, 104, func(t *rapid.T) any { return ptr(int32(rapid.IntRange(1, 9).Draw(t, "i"))) }},
+	}},
+	{"gogo message-set fixture", "gogo", func() any { return &GogoSetMsg{} }, []extDef{
+		{"gogoset_small", EGogoSetSmall, 1000, func(t *rapid.T) any { return &gogotypes.Timestamp{Seconds: int64(rapid.IntRange(0, 9).Draw(t, "sec"))} }},
+		{"gogoset_large", EGogoSetLarge, 1 << 30, func(t *rapid.T) any { return &gogotypes.Timestamp{Seconds: int64(rapid.IntRange(0, 9).Draw(t, "sec"))} }},
 	}},
 	{"google dynamicpb BaseEvent", "google", dynBase, []extDef{
 		{"dyn_bool", dynExts["dyn_bool"], 200, func(t *rapid.T) any { return rapid.Bool().Draw(t, "b") }},
